@@ -184,7 +184,8 @@ def _assemble_and_compare(it, g, verts, dims, spec, scn, label="", chi2_only=Fal
         # optimize() itself could not be translated: interpret its pre-loop statements and call the assembly directly
         run_prelude(it, g, scn.ffp)
         it.call_method(g, "_calc_chi2_gradient_hessian", [])
-        b, H, chi2 = ga(g, "_gradient", None), ga(g, "_hessian", None), ga(g, "_chi2", None)
+        from .interp import gp
+        b, H, chi2 = gp(g, "_gradient"), gp(g, "_hessian"), gp(g, "_chi2")
         via = "prelude"
     for k, v in enumerate(verts):
         if bool(ga(v, "fixed", None)) != (k in fixed):
@@ -217,7 +218,11 @@ def _assemble_and_compare(it, g, verts, dims, spec, scn, label="", chi2_only=Fal
         for a in range(dims[v]):
             eH[offs[v] + a][offs[v] + a] = Poly.const(1)
     # ---- compare
-    if not isinstance(chi2, Poly) or chi2 != echi:
+    if chi2 is None and via == "optimize":
+        if chi2_only:
+            from .model import AnalysisError as _AE
+            raise _AE("anchor vanished: Graph._chi2 (the harness reads the chi^2 stored by the assembly under that private name)")
+    elif not isinstance(chi2, Poly) or chi2 != echi:
         raise ObFail("%sthe chi^2 stored by _calc_chi2_gradient_hessian is not the sum of all edges' e^T W e (the graph's chi^2)" % label)
     if chi2_only:
         direct = it.call_method(g, "calc_chi2", [])
